@@ -1,8 +1,11 @@
 SPECIFICATION GSpec
 CONSTANTS MaxAddrs = 2
-          NKinds = 8
+          NKinds = 5
+          MaxFA = 8
+          BothSrc = TRUE
           MaxList = 3
+          NRB = 5
           DoA = TRUE
           DoB = TRUE
-INVARIANTS Emit RulesSane
+INVARIANTS Emit
 CHECK_DEADLOCK FALSE
